@@ -551,6 +551,7 @@ def run(c):
     nan_cases(c, S, info, R, rb)
     special_value_sweep(c, S, info, R, rb)
     extra_field_cases(c, S, info, R, rb)
+    C05.entry_points(c, S, info, R, rb)       # every public save / restore / copy / compare entry point, once per run
     ncb = callback_side_cases(c, S, info, R, rb)
     extra = {"callbacks:set_on_one_side_only": ncb,
              "values:special_doubles_every_member": c.cov.get("special_value_sweep", {}).get("cases", 0),
